@@ -52,8 +52,11 @@ def run(ck, rng, tier):
         kind = rng.choice(("plain", "monotone", "perm", "negate"))
         lines.append("roc %s %s" % (vf.fmt_vec(lab), vf.fmt_vec(scores)))
         meta.append(("roc", lab, scores, "base"))
+        if c < 6:
+            kind = "monotone"     # every run: distinct scores a hair apart (the AUC only depends on the ranks)
         if kind == "monotone":
-            f = rng.choice((lambda x: 3 * x + 1, lambda x: x ** 3 + x, lambda x: math.atan(x), lambda x: math.exp(min(x, 50) / 50)))
+            tiny = (lambda x: 1e-7 * x, lambda x: 1.0 / (1.0 + math.exp(-max(min(20.0 * x, 700.0), -700.0))), lambda x: 1.0 + 1e-9 * x)
+            f = tiny[c % 3] if c < 6 else rng.choice((lambda x: 3 * x + 1, lambda x: x ** 3 + x, lambda x: math.atan(x), lambda x: math.exp(min(x, 50) / 50)) + tiny)
             s2 = [f(x) for x in scores]
             if len(set(s2)) == n:
                 lines.append("roc %s %s" % (vf.fmt_vec(lab), vf.fmt_vec(s2))); meta.append(("roc", lab, s2, "monotone"))
